@@ -45,9 +45,19 @@ func vIntsEq(a, b []int) bool {
 	return true
 }
 
+// vC20Mirrored selects the second point alphabet: points with their negations (directions
+// that cancel exactly) instead of the non-negative lattice.
+var vC20Mirrored bool
+
 func vC20KMeans(c *vCtx, d, maxLen, part, parts int) {
 	var pts [][]float32
-	if d == 1 {
+	if vC20Mirrored {
+		if d == 1 {
+			pts = [][]float32{{-2}, {-1}, {1}, {2}}
+		} else {
+			pts = [][]float32{{1, 0}, {-1, 0}, {0, 1}, {0, -1}, {1, 1}, {-1, -1}, {2, -1}, {-2, 1}}
+		}
+	} else if d == 1 {
 		pts = [][]float32{{0}, {1}, {2}, {3}}
 	} else {
 		for x := 0; x < 4; x++ {
@@ -58,6 +68,9 @@ func vC20KMeans(c *vCtx, d, maxLen, part, parts int) {
 	}
 	metrics := []DistanceKind{Euclidean, L2Squared, Cosine}
 	cfgS := fmt.Sprintf("kmeans d=%d", d) + vXFTag()
+	if vC20Mirrored {
+		cfgS += " mirrored"
+	}
 	pts = vXFVecs(pts)
 	if vXF.Off != 0 {
 		metrics = metrics[:2] // a common offset makes all directions alike
@@ -131,6 +144,19 @@ func vC20KMeans(c *vCtx, d, maxLen, part, parts int) {
 					for _, m := range mp {
 						if m < 0 || m >= len(cen) {
 							c.Violation("kmeans-mapping-index", "", cfgS, nil, fmt.Sprintf("%s: mapping %v", desc(), mp))
+						}
+					}
+					// the returned centroids are the caller's: writing to them does not change
+					// the training vectors (no shared memory)
+					for ci := range cen {
+						if len(cen[ci]) > 0 {
+							old := cen[ci][0]
+							cen[ci][0] = 12345.5
+							if !vDeepEq(train, orig) {
+								c.Violation("kmeans-centroid-aliases-input", "", cfgS, nil, desc())
+								train = vDeepCopy(orig)
+							}
+							cen[ci][0] = old
 						}
 					}
 					// determinism: a second call gives bit-identical output
@@ -723,6 +749,14 @@ func init() {
 					c.Bound = "kmeans under an affine transform of the data: lattice sequences of length <= 4 (d=1) / 3 (d=2), sizes 1..48, 257, 1025"
 				}})
 			}
+			// points together with their negations (clusters whose directions cancel exactly)
+			sh = append(sh, vShard{Name: "kmeans/mirrored", Run: func(c *vCtx) {
+				vC20Mirrored = true
+				defer func() { vC20Mirrored = false }()
+				vC20KMeans(c, 1, 4, 0, 1)
+				vC20KMeans(c, 2, 3, 0, 1)
+				c.Bound = "kmeans over points with their negations: all sequences of length <= 4 (d=1) / 3 (d=2)"
+			}})
 			sh = append(sh, vShard{Name: "quantizers/lengths", Run: func(c *vCtx) { vC20QuantLengths(c, qlen) }})
 			sh = append(sh, vShard{Name: "train-twice", Run: func(c *vCtx) { vC20TrainTwice(c, tier) }})
 			qd := 5
@@ -740,6 +774,10 @@ func init() {
 		Replay: func(c *vCtx, v *vViolation) bool {
 			defer vXFParse(v.Config, Euclidean)()
 			v.Config = vXFStrip(v.Config)
+			if strings.HasSuffix(v.Config, " mirrored") {
+				vC20Mirrored = true
+				defer func() { vC20Mirrored = false }()
+			}
 			switch {
 			case strings.HasPrefix(v.Config, "kmeans d=1"):
 				vC20KMeans(c, 1, 4, 0, 1)
